@@ -394,7 +394,10 @@ pub fn main(args: &[String]) -> i32 {
         // confirm first
         let (c0, _) = ex.run(&choices);
         let class = fv.class.replace(' ', "_");
-        if c0.as_deref() != Some(class.as_str()) {
+        // a memory-corruption failure may show a different symptom in another process (anything goes once
+        // the heap is damaged): any violation on re-execution confirms it
+        let mem_family = runner::same_class("crash/", &class);
+        if !c0.as_deref().map(|c| runner::same_class(c, &class) || mem_family).unwrap_or(false) {
             harness_errors.push(format!("violation {} of run {} ({}/{}) did not recur when its choices were re-executed (got {:?}); determinism problem in the harness", fv.class, fv.run, g.sim, g.config, c0));
             continue;
         }
@@ -426,8 +429,8 @@ pub fn main(args: &[String]) -> i32 {
         let (ok, text) = match out {
             Ok(o) => {
                 let text = String::from_utf8_lossy(&o.stdout).to_string();
-                let crashed = text.contains("CRASH run=");
-                let reproduced = text.contains("REPRODUCED ") || (crashed && class.starts_with("crash/"));
+                let crashed = text.contains("CRASH run=") || o.status.code().is_none();
+                let reproduced = text.contains("REPRODUCED ") || (crashed && mem_family) || (mem_family && text.contains("DIFFERENT-VIOLATION"));
                 (reproduced, text)
             }
             Err(e) => (false, e.to_string()),
